@@ -31,16 +31,17 @@ structure EvalPost (p : Prog) (s s' : State) (m : Nat) (L : List (Nat × Int × 
   ver : (s'.get m).ver = (s.get m).ver
   seen : (s'.get m).seen = (s.get m).seen ++ L
   valCh : ValCh s s'
+  obs : s'.obs = s.obs
 
 theorem EvalPost.refl {p : Prog} {s : State} {m : Nat} (h : InvR p s) (hl : RunLoc s m) :
     EvalPost p s s m [] :=
-  ⟨h, hl, Frame.refl s _, fun _ => rfl, rfl, rfl, by simp, ValCh.of_val_eq (fun _ => rfl)⟩
+  ⟨h, hl, Frame.refl s _, fun _ => rfl, rfl, rfl, by simp, ValCh.of_val_eq (fun _ => rfl), rfl⟩
 
 theorem EvalPost.trans {p : Prog} {s s1 s2 : State} {m : Nat} {L1 L2}
     (h1 : EvalPost p s s1 m L1) (h2 : EvalPost p s1 s2 m L2) : EvalPost p s s2 m (L1 ++ L2) :=
   ⟨h2.inv, h2.loc, h1.frame.trans h2.frame, fun i => (h2.running i).trans (h1.running i),
    h2.subs.trans h1.subs, h2.ver.trans h1.ver, by rw [h2.seen, h1.seen, List.append_assoc],
-   h1.valCh.trans h2.valCh h1.frame h2.frame (h1.loc.obs.trans (by rw [h2.loc.obs] at *; exact (h2.loc.obs.symm.trans h2.loc.obs).symm ▸ rfl))⟩
+   h1.valCh.trans h2.valCh h1.frame h2.frame h1.obs, h2.obs.trans h1.obs⟩
 
 /-- appending a ghost `seen` entry to the running node -/
 theorem appendSeen_inv {p : Prog} {s : State} {m : Nat} (h : InvR p s) (hm : m < s.nodes.length)
@@ -187,7 +188,7 @@ theorem readNode_spec {p : Prog} {u : State → Nat → State × Bool} {f : Nat}
     have hs := h1.sigOk x hxp hk
     obtain ⟨v, hv⟩ := hs.2.2
     exact ⟨h1, f1, t.obs, t.running, t.kind m, t.sources_m, t.seen m, t.subs hxm m (Ne.symm hxm), t.ver m,
-      hs.1, by rw [hv]; rfl⟩
+      hs.1, by rw [hv]; rfl, ValCh.of_val_eq t.val⟩
   | memo =>
     simp only
     have hp := hu s1 x h1 (by omega) hxnr (by
@@ -202,7 +203,8 @@ theorem readNode_spec {p : Prog} {u : State → Nat → State × Bool} {f : Nat}
     have cf := Node.core_fields ab
     obtain ⟨v, hv⟩ := hp.inv.clean_val hxp (by rw [hp.frame.kind, hk]; simp) hc
     refine ⟨hp.inv, f1.trans (hp.frame.mono (by omega)), hp.obs.trans t.obs,
-      fun i => (hp.running i).trans (t.running i), cf.1.trans (t.kind m), ?_, ?_, ?_, ?_, hc, ?_⟩
+      fun i => (hp.running i).trans (t.running i), cf.1.trans (t.kind m), ?_, ?_, ?_, ?_, hc, ?_,
+      (ValCh.of_val_eq t.val).trans hp.valCh f1 (hp.frame.mono (by omega)) t.obs⟩
     · exact cf.2.2.1.trans t.sources_m
     · exact cf.2.2.2.2.2.2.1.trans (t.seen m)
     · exact cf.2.2.2.1.trans (t.subs hxm m (Ne.symm hxm))
@@ -268,7 +270,8 @@ theorem rd_evalPost {p : Prog} {s s2 : State} {m x : Nat} {v : Int} (hl : RunLoc
       by_cases hi : i = m
       · subst hi; rw [gm]; exact ⟨rfl, rfl, rfl⟩
       · rw [go i hi]; exact ⟨rfl, rfl, rfl⟩
-  refine ⟨hinv, ?_, rp.frame.trans f2, fun i => (runE i).trans (rp.running i), ?_, ?_, ?_⟩
+  refine ⟨hinv, ?_, rp.frame.trans f2, fun i => (runE i).trans (rp.running i), ?_, ?_, ?_,
+    rp.valCh.trans (ValCh.of_val_eq valE) rp.frame f2 rp.obs, hobs.trans rp.obs⟩
   · refine ⟨hobs.trans (rp.obs.trans hl.obs), (kE m).trans (rp.kind_m.trans hl.kind), by rw [runE]; exact hr2,
       ?_, ?_, ?_⟩
     · intro r hr; rw [runE, rp.running] at hr; exact hl.lowest r hr
